@@ -25,6 +25,9 @@ use std::sync::atomic::{AtomicBool, AtomicU32, AtomicU64, Ordering::*};
 
 #[inline]
 pub unsafe fn raw6(n: c_long, a1: usize, a2: usize, a3: usize, a4: usize, a5: usize, a6: usize) -> isize {
+    if (n as usize) < RAW_COUNTS.len() {
+        RAW_COUNTS[n as usize].fetch_add(1, Relaxed);
+    }
     let ret: isize;
     asm!(
         "syscall",
@@ -34,6 +37,13 @@ pub unsafe fn raw6(n: c_long, a1: usize, a2: usize, a3: usize, a4: usize, a5: us
         options(nostack)
     );
     ret
+}
+/// Per-syscall-number count of kernel entries made through the interposers' pass-through
+/// (selftest "seams": must equal what strace counts for the whole process, i.e. nothing the
+/// code under test does reaches the kernel around the seam).
+static RAW_COUNTS: [AtomicU64; 512] = [const { AtomicU64::new(0) }; 512];
+pub fn raw_count(nr: c_long) -> u64 {
+    RAW_COUNTS.get(nr as usize).map(|c| c.load(Relaxed)).unwrap_or(0)
 }
 #[inline]
 pub unsafe fn raw3(n: c_long, a1: usize, a2: usize, a3: usize) -> isize {
